@@ -1,4 +1,6 @@
 """C05 — check mode's verdict is exact and predicts what edit mode does (E4 differential)."""
+import os
+
 import cli
 import difftree
 import spaces
@@ -13,6 +15,7 @@ def families(tier):
     yield "statement-kind tuples: 2..%d statements of 7 kinds x directives in one file x style" % (3 if tier == "thorough" else 2), spaces.statement_kind_tuples(3 if tier == "thorough" else 2)
     yield "cross-feature product: directive x target x key-values x eol x layout x second statement on the line x position x style", spaces.cross_feature_product()
     yield "far positions: column / line number at 255..257, 65535..65537, 200000", spaces.far_positions()
+    yield "gap sweep: 2-3 statements separated by 4 KiB / 8 KiB / 64 KiB / 128 KiB / 1 MiB (+-1 byte)", spaces.gap_sweep()
     yield "size-boundary sweep: file size and insertion offset within 3 of 2^9..2^17", spaces.size_boundary_sweep()
     yield "odd characters (NUL, lone CR, VT, FF, NEL, LS, PS, LRM, ZWSP, DEL, NBSP, combining) at 7 places", spaces.odd_characters()
     yield "C13 structured ref states (default layout)", spaces.c13_default_layout(tier)
@@ -83,7 +86,58 @@ def classify(fr, want):
     return "column"
 
 
+def run_walk_faults(tier, v):
+    """E1, check mode: a directory that cannot be opened / listed hides the files below it and nothing else; every statement without a
+    reference in a file the walk can still reach is reported and the run fails."""
+    import c01
+    import cli
+    import fsx
+    ex = fsx.Explorer()
+    outcomes = set()
+
+    def oracle(sc, base, x):
+        v.count()
+        orig = sc.source_bytes()
+        bad_dirs = [o.path[len("$R0/src"):].lstrip("/") for o in x.trace if o.op in ("opendir", "readdir") and o.errno != 0 and o.path.startswith("$R0/src")]
+        reachable = [f for f in orig if not any(d == "" or f.startswith(d + "/") for d in bad_dirs)]
+        rep = cli.Report(x.stdout)
+        reported = {f.split("/src/", 1)[-1] for f, _, _ in rep.missing}
+        v.distinct((sc.name, fsx.plan_str(x.plan)))
+        outcomes.add((x.exit, len(reachable), len(rep.missing)))
+        bad = []
+        if x.timed_out or x.signal is not None:
+            bad.append("abnormal-termination")
+        if x.src != orig:
+            bad.append("check-run-changed-a-file")
+        if reachable and x.exit == 0:
+            bad.append("exit0-although-reachable-statements-lack-references")
+        if rep.total is not None and rep.total < len(reachable):
+            bad.append("fewer-statements-reported-than-reachable-files-hold")
+        if not set(reachable) <= reported:
+            bad.append("reachable-file-not-reported")
+        for b_ in bad:
+            v.violation("%s:walk-fault:%s" % (b_, "+".join(sorted({o.op for o in x.trace if o.errno != 0 and o.op in ("opendir", "readdir")})) or "none"),
+                        {"scenario": sc.name, "plan": fsx.plan_str(x.plan), "exit": x.exit, "reported_total": rep.total, "reported_files": sorted(reported), "reachable": sorted(reachable),
+                         "unlistable": bad_dirs, "stdout": x.stdout.decode("utf-8", "replace")[-1500:]},
+                        replay_files={"proj/src/" + f: b for f, b in orig.items()},
+                        replay_cmd="apply the fault plan with the fsx shim (FSX_PLAN=%s) on a --check run of this tree" % fsx.plan_str(x.plan))
+
+    scs = [s for s in c01.walk_fault_scenarios() if "-lock" not in s.name and "-asc" in s.name]
+    if tier != "thorough":
+        scs = [s for s in scs if s.name.startswith(("W1", "W3"))]
+    nexec = 0
+    for sc in scs:
+        sc.check = True
+        _, n, _ = ex.explore(sc, {"fail"}, 2 if tier == "thorough" else 1, oracle, op_filter=lambda o, depth, x: o.op in ("opendir", "readdir"))
+        nexec += n + 1
+    ex.close()
+    v.subspace("walk faults (check mode): %d trees with 1-3 sub-directories x style x creation order; every opendir/readdir of the walk fails, %s"
+               % (len(scs), "all pairs" if tier == "thorough" else "one fault per run"), nexec, exhaustive=True)
+    v.coverage["walk_fault_distinct_outcomes(exit, reachable files, reported)"] = len(outcomes)
+
+
 def run(tier, v):
+    run_walk_faults(tier, v)
     for name, it in families(tier):
         cases, dropped = difftree.prefilter(list(it))
         n = 0
